@@ -328,7 +328,17 @@ class Gen:
         multiplicities over non-square blocks, complex Hermitian composites, Gram products with one or BOTH factors wrapped"""
         rng = self.rng
         d2 = max(0, depth - 2)
-        k = rng.choice(["bigkron", "bigkron", "bigkronsum", "herm", "herm", "bdiagmult", "bdiagmult", "gramwrap", "hermcomp"])
+        k = rng.choice(["bigkron", "bigkron", "bigkronsum", "herm", "herm", "bdiagmult", "bdiagmult", "gramwrap", "hermcomp", "identfirst"])
+        if k == "identfirst":
+            # an Identity as the FIRST member of a 3-4 member Sum / KronSum / Product: `Identity @ X` returns the operand object
+            # itself, so any member-wise accumulation that works in place aliases the caller's operand (seeded c01_m3, c18_m3)
+            f = rng.choice(["sum", "sum", "kronsum", "prod"])
+            dt = rng.choice(DTYPES)
+            if f == "kronsum":
+                qs = rng.choice([[2, 2, 2], [2, 3, 2], [3, 2], [2, 2, 3]])
+                return ["kronsum", ["eye", dt, qs[0]]] + [self.op(q, q, d2) for q in qs[1:]]
+            n = rng.randint(2, 4)
+            return [f, ["eye", dt, n]] + [self.op(n, n, d2) for _ in range(rng.choice([2, 2, 3]))]
         if k == "bigkron":
             n = rng.choice([3, 3, 4])
             pool = [(1, 2), (2, 1), (2, 3), (3, 2), (1, 3), (3, 1), (2, 2), (3, 3), (2, 4), (4, 2), (1, 1)]
